@@ -330,12 +330,126 @@ func sigCalls(fn ast.Node, n ast.Node) []string {
 	return sigCallsDepth(fn, n, 2)
 }
 
+// lcNegGuard renders the negation of a guard text.
+func lcNegGuard(c string) string {
+	simple := !strings.ContainsAny(c, " ()")
+	switch {
+	case strings.HasPrefix(c, "!") && !strings.ContainsAny(c[1:], " ()"):
+		return c[1:]
+	case simple:
+		return "!" + c
+	case strings.Count(c, " == ") == 1 && !strings.Contains(c, "||") && !strings.Contains(c, "&&"):
+		return strings.Replace(c, " == ", " != ", 1)
+	case strings.Count(c, " != ") == 1 && !strings.Contains(c, "||") && !strings.Contains(c, "&&"):
+		return strings.Replace(c, " != ", " == ", 1)
+	}
+	return "!(" + c + ")"
+}
+
 func sigCallsDepth(fn ast.Node, n ast.Node, depth int) []string {
 	var res []string
+	// variables that carry the result of the restart / recovery look-up: whatever is
+	// assigned under a guard over onRestart / onRecovery (`createTx`, `accountTx`, ...).
+	// A later guard over one of them means "the look-up found nothing" / "found it";
+	// the name of the variable does not matter.
+	lookupVars := map[string]bool{}
+	ast.Inspect(n, func(c ast.Node) bool {
+		is, ok := c.(*ast.IfStmt)
+		if !ok {
+			return true
+		}
+		ct := exprString(is.Cond)
+		if !strings.Contains(ct, "onRestart") && !strings.Contains(ct, "onRecovery") {
+			return true
+		}
+		ast.Inspect(is.Body, func(c ast.Node) bool {
+			if as, ok := c.(*ast.AssignStmt); ok {
+				for _, l := range as.Lhs {
+					if id, ok := l.(*ast.Ident); ok && id.Name != "err" && id.Name != "_" {
+						lookupVars[id.Name] = true
+					}
+				}
+			}
+			return true
+		})
+		return true
+	})
+	// guardOf: the canonical text of a condition that matters for the call lists, "" otherwise
+	guardOf := func(cond ast.Expr) string {
+		c := lcGuardText(cond)
+		if strings.Contains(c, "onRestart") || strings.Contains(c, "onRecovery") ||
+			strings.Contains(c, "account.State") {
+
+			return c
+		}
+		e := cond
+		if p, ok := e.(*ast.ParenExpr); ok {
+			e = p.X
+		}
+		switch x := e.(type) {
+		case *ast.Ident:
+			if lookupVars[x.Name] {
+				return "notLocated"
+			}
+		case *ast.UnaryExpr:
+			if id, ok := x.X.(*ast.Ident); ok && x.Op == token.NOT && lookupVars[id.Name] {
+				return "located"
+			}
+		case *ast.BinaryExpr:
+			l, lok := x.X.(*ast.Ident)
+			r, rok := x.Y.(*ast.Ident)
+			if lok && rok && (x.Op == token.EQL || x.Op == token.NEQ) {
+				v := ""
+				switch {
+				case r.Name == "nil" && lookupVars[l.Name]:
+					v = l.Name
+				case l.Name == "nil" && lookupVars[r.Name]:
+					v = r.Name
+				}
+				if v != "" && x.Op == token.EQL {
+					return "notLocated"
+				}
+				if v != "" {
+					return "located"
+				}
+			}
+		}
+		return ""
+	}
 	var walk func(n ast.Node, guard string)
+	// a guard clause `if c { ...; return }` puts the rest of the block under !c
+	walkList := func(list []ast.Stmt, guard string) {
+		g := guard
+		for _, st := range list {
+			walk(st, g)
+			is, ok := st.(*ast.IfStmt)
+			if !ok || is.Else != nil || len(is.Body.List) == 0 {
+				continue
+			}
+			if _, ret := is.Body.List[len(is.Body.List)-1].(*ast.ReturnStmt); !ret {
+				continue
+			}
+			// (state guards at the head of a user action are facts of their own:
+			// accepts*; they do not qualify the calls that follow)
+			if c := guardOf(is.Cond); c != "" && !strings.Contains(c, "account.State") {
+				g += "[" + lcNegGuard(c) + "]"
+			}
+		}
+	}
 	walk = func(n ast.Node, guard string) {
 		switch x := n.(type) {
 		case nil:
+			return
+		case *ast.BlockStmt:
+			if x != nil {
+				walkList(x.List, guard)
+			}
+			return
+		case *ast.CaseClause:
+			for _, e := range x.List {
+				walk(e, guard)
+			}
+			walkList(x.Body, guard)
 			return
 		case *ast.IfStmt:
 			if x.Init != nil {
@@ -343,17 +457,17 @@ func sigCallsDepth(fn ast.Node, n ast.Node, depth int) []string {
 			}
 			walk(x.Cond, guard)
 			g := guard
-			c := lcGuardText(x.Cond)
-			if strings.Contains(c, "onRestart") ||
-				strings.Contains(c, "onRecovery") ||
-				strings.Contains(c, "createTx") ||
-				strings.Contains(c, "account.State") {
-
+			c := guardOf(x.Cond)
+			if c != "" {
 				g = guard + "[" + c + "]"
 			}
 			walk(x.Body, g)
 			if x.Else != nil {
-				walk(x.Else, guard+"[else "+c+"]")
+				if c == "" {
+					walk(x.Else, guard)
+				} else {
+					walk(x.Else, guard+"["+lcNegGuard(c)+"]")
+				}
 			}
 			return
 		case *ast.BranchStmt:
